@@ -83,6 +83,19 @@ Definition debug_field_arg_toks (impl_generics field_ty self_ty where_clause met
        G Paren (field_expr ++ [P ","] ++ rpath_toks (RCore ["marker"; "PhantomData"]) ++
                 [P "::"; P "<"; I "Self"; P ">"])]);
    P ";"].
+(** `&match x { Self::V { .. } => <d>i128, .. }` (common/tools/discriminant_type.rs,
+    discriminant_value_expr; quote! prints an i128 as a suffixed literal, a negative one as `-` followed by the literal) *)
+Definition discr_lit (z : Z) : toks :=
+  if Z.ltb z 0 then [P "-"; TLit (LKInt (Z.opp z) "i128") (decZ (Z.opp z) ^^ "i128")]
+  else [TLit (LKInt z "i128") (decZ z ^^ "i128")].
+Definition discr_ref_toks (x : string) (ds : list (string * Z)) : toks :=
+  [P "&"; I "match"; I x;
+   G Brace (flat_map (fun '(v, z) => [I "Self"; P "::"; I v; G Brace [P ".."]; P "=>"] ++ discr_lit z ++ [P ","]) ds)].
+Definition discr_cmp_toks (ds : list (string * Z)) : toks :=
+  P "::" :: path_toks ["core"; "cmp"; "Ord"; "cmp"] ++
+  [G Paren (discr_ref_toks "self" ds ++ comma ++ discr_ref_toks "other" ds)].
+Definition ordering_arm_toks (c : string) (body : toks) : toks :=
+  P "::" :: path_toks ["core"; "cmp"; "Ordering"; c] ++ [P "=>"] ++ body ++ comma.
 
 Fixpoint expr_toks (e : expr) : toks :=
   match e with
@@ -128,6 +141,11 @@ Fixpoint expr_toks (e : expr) : toks :=
   | EStr s => [TStr (dquote ^^ s ^^ dquote) s None]
   | EDebugMapBuilder => debug_map_builder_toks
   | EDebugFieldArg ig fty sty wc m fe => debug_field_arg_toks ig fty sty wc m (expr_toks fe)
+  | EDiscrMatch ds eq gt lt =>
+      I "match" :: discr_cmp_toks ds ++
+      [G Brace (ordering_arm_toks "Equal" (expr_toks eq) ++
+                ordering_arm_toks "Greater" (expr_toks gt) ++
+                ordering_arm_toks "Less" (expr_toks lt))]
   end.
 
 Definition block_toks (b : block) : toks := flat_map expr_toks b.
